@@ -74,8 +74,10 @@ fn serve(seq: &[R], plan: &Plan, pending: Vec<usize>) -> Outcome {
     for r in seq {
         bytes.extend(r.bytes());
     }
+    let head: Vec<u8> = bytes[..bytes.len().min(160)].to_vec();
     let io = Arc::new(Mutex::new(AsyncCut::new(bytes, plan.cuts.clone(), pending)));
     let io2 = io.clone();
+    let _call = crate::report::enter(&head);
     let r = std::panic::catch_unwind(std::panic::AssertUnwindSafe(|| {
         block_on(async {
             parts.serve(Stream::Verif(Box::pin(Shared(io2)), "198.51.100.7:5555".parse().unwrap())).await;
